@@ -80,6 +80,8 @@ def run(scn, seed):
         return {"status": status, "events": ev, "threads": threads, "sent": [b.decode() for _, b in sock.sent], "log": log,
                 "close_calls": sock.close_calls, "double_close_error": double_close["err"], "exited": sched.exited,
                 "pool_running": srv._executor.running, "pool_queue": len(srv._executor.workq),
+                "pool_submitted": srv._executor.count, "pool_cancelled": srv._executor.cancelled,
+                "pool_finished": sum(1 for t in sched.threads.values() if t.kind == "task" and t.started and t.done),
                 "close_expected": srv._close_expected}
     finally:
         sched.teardown()
@@ -185,8 +187,9 @@ def stream(tier):
                     res.violation("close-socket", "socket closed %d times on an honoured close request" % out["close_calls"], inp)
                 if not out["threads"].get("W", (True,))[0] or not out["threads"].get("R", (True,))[0]:
                     res.violation("close-threads", "reader / writer still alive after an honoured close request", inp)
-                if out["pool_running"] or out["pool_queue"]:
-                    res.violation("close-pool", "accepted pool tasks did not complete: running=%d queued=%d" % (out["pool_running"], out["pool_queue"]), inp)
+                if out["pool_running"] or out["pool_queue"] or out["pool_finished"] != out["pool_submitted"]:
+                    res.violation("close-pool", "accepted pool tasks did not complete: submitted=%d finished=%d running=%d queued=%d dropped=%d" % (
+                        out["pool_submitted"], out["pool_finished"], out["pool_running"], out["pool_queue"], out["pool_cancelled"]), inp)
                 begun = [l for l in out["log"] if l[1] in ("nsc-begin",)]
                 ended = [l for l in out["log"] if l[1] in ("nsc-end",)]
                 if len(begun) != len(ended):
@@ -208,6 +211,9 @@ def stream(tier):
         else:
             if out["double_close_error"]:
                 res.violation("double-close-raises", "close(); close() raised %s" % out["double_close_error"], inp)
+            if out["status"] == "quiescent" and not out["exited"] and out["pool_finished"] != out["pool_submitted"]:
+                res.violation("close-pool", "the application's close() dropped accepted pool tasks: submitted=%d finished=%d dropped=%d" % (
+                    out["pool_submitted"], out["pool_finished"], out["pool_cancelled"]), inp)
             if ioh or exits:
                 res.violation("own-close-reported", "the server's own close() was reported as an I/O failure: %r" % (ioh + exits,), inp)
             ops.append("iofault %s t reader" % ({"absent": "n", True: "t", False: "f", None: "f"}[h]))
